@@ -108,6 +108,38 @@ def perturb_layout(seed: int) -> list:
     return keep
 
 
+class _Inst:
+    """Plain instance with a __dict__ (the shape of BB, Place, AST-node objects)."""
+
+
+def scatter(seed: int) -> list:
+    """Right before a program is compiled: for every small-object size class, allocate a
+    few hundred blocks and free a random half of them in random order.  pymalloc's free
+    lists are LIFO, so the objects the compiler allocates next (BBs, AST nodes, places -
+    often two candidates created back to back) land at addresses whose relative order is
+    a function of `seed` instead of always ascending."""
+    import random
+    rng = random.Random(seed)
+    keep = []
+    for k in range(0, 15):                       # tuples: 40 + 8k bytes -> classes 48..160
+        blocks = [(None,) * k for _ in range(160)]
+        rng.shuffle(blocks)
+        keep.append(blocks[: 80 + rng.randrange(16)])
+        del blocks
+    insts = [_Inst() for _ in range(400)]
+    for i, o in enumerate(insts):
+        if i % 3 == 0:
+            o.a = i                               # materialise some __dict__s
+    rng.shuffle(insts)
+    keep.append(insts[: 200 + rng.randrange(32)])
+    del insts
+    dicts = [{"a": None} for _ in range(200)] + [[None] * rng.randrange(1, 9) for _ in range(200)]
+    rng.shuffle(dicts)
+    keep.append(dicts[:200])
+    del dicts
+    return keep
+
+
 def observe(thunk) -> str:
     o = genv.outcome(thunk, want_bytes=True)
     o.pop("result", None)
@@ -191,6 +223,7 @@ def run_job(job: dict) -> dict:
             A._VERIF_SCHED = s
         else:
             A._VERIF_SCHED = None     # the shipped container pops on its own
+        held = scatter(mix(cfg["layout"], idx)) if cfg.get("layout") else None
         if kind == "gen":
             ch = Choices(replay=choices) if choices is not None else Choices(seed=val)
             r = run_program(ch, job.get("params", {}), f"c10_p{idx}", idx)
@@ -207,6 +240,7 @@ def run_job(job: dict) -> dict:
             r["pops"] = sum(len(p) for p in s.pops)
         if not job.get("want_source"):
             r.pop("source", None)
+        del held
         out.append(r)
     del keep
     return {"cases": out}
